@@ -312,6 +312,12 @@ func (seq Sequence) SubMerge(other Sequence, metadata goexpr.Params, resolution 
 		if p >= resultPeriods {
 			break
 		}
+		if !asOf.IsZero() && !otherUntil.Add(-1*time.Duration(po)*otherResolution).After(asOf) {
+			// Periods at or before asOf are only there to be read by shifted
+			// expressions, they must not be merged themselves (they'd otherwise
+			// leak into the oldest period when that starts before asOf).
+			break
+		}
 		if strideSlice <= 0 || (po+untilOffset)%scale < strideSlicePeriods {
 			submerge(result[Width64bits+p*width:], other[Width64bits+po*otherWidth:], otherResolution, metadata)
 		}
